@@ -119,6 +119,9 @@ def handle_paths(program):
     return paths, doc_of
 
 
+MAX_SCHEDULES = [2500]   # per program; the thorough tier raises it (set by the check modules)
+
+
 def one_preemption_schedules(program, T, full_limit=1600, per_site=2):
     """Baselines for every start thread and the single-preemption schedules derived from them.
 
@@ -148,6 +151,11 @@ def one_preemption_schedules(program, T, full_limit=1600, per_site=2):
             for j in range(T):
                 if j != cur:
                     out.append({"start": s["start"], "pre": {k: j}})
+    if len(out) > MAX_SCHEDULES[0]:
+        # very long programs: an evenly spaced subset (deterministic), never reported as exhaustive
+        stride = len(out) / MAX_SCHEDULES[0]
+        out = [out[int(i * stride)] for i in range(MAX_SCHEDULES[0])]
+        exhaustive = False
     return base, bres, out, exhaustive
 
 
